@@ -5,7 +5,7 @@ import types
 
 from hypothesis import strategies as st
 
-from vf.core import Ctx, HarnessError, StopCheck, Violation, redun_frame, shard_range
+from vf.core import Ctx, HarnessError, Violation, redun_frame, shard_range
 from vf.lab import interleave as IL
 
 ID = "C11"
